@@ -446,6 +446,8 @@ def qselect_input_rule(chk, cid, prog, cfgname):
                     asg = [x for x in ([body] if body.k == 'Assign' else body.walk()) if x.k == 'Assign' and strip(x.c[0]).k == 'Index'
                            and root_ref(x.c[0]) is not None and root_ref(x.c[0]).a.get('id') == W.a.get('id')]
                     cond = strip(prev.c[1])
+                    if not (asg and cond.k == 'Binary' and cond.a['op'] == '<'):
+                        raise AnalysisBroken('%s: the loop before %s is not a counting loop `for (..; v < n; ..) %s[v] = ..` this rule can read' % (f.name, callee_name(call), W.a.get('name')))
                     if asg and cond.k == 'Binary' and cond.a['op'] == '<':
                         sub = strip(strip(asg[0].c[0]).c[1])
                         lhs = strip(cond.c[0])
@@ -453,6 +455,8 @@ def qselect_input_rule(chk, cid, prog, cfgname):
                                    for x in prev.c[0].walk())
                         ok = sub.k == 'Ref' and lhs.k == 'Ref' and lhs.a.get('id') == sub.a.get('id') and canon(cond.c[1], ids=False) == cnt_c and zero
                         why = 'fill loop `for (%s; %s; ..) %s` against a selection over %s[0..%s)' % (pretty(prev.c[0])[:20], pretty(cond), pretty(asg[0])[:40], W.a.get('name'), cnt_c)
+                if not ok and why.startswith('the statement before'):
+                    raise AnalysisBroken('%s: %s' % (f.name, why))
                 if ok:
                     chk.ok(cid, inst, sample=why)
                 else:
